@@ -136,7 +136,8 @@ func HarnessStartSync(m int, n int, disabled int) {
 }
 
 // HarnessInvAfterSync (C06, step P4): after the sync peer's last answer brought nothing new, a
-// block announced by inv that we do not know leads to a getheaders that really reaches the peer.
+// block that we do not know, announced by inv - by the sync peer or by any other connected
+// peer - leads to a getheaders that really reaches the announcing peer.
 func HarnessInvAfterSync(n int, disabled int) {
 	disable := disabled == 1
 	sm, hs, _, _ := c06Manager(n, disable)
@@ -146,6 +147,10 @@ func HarnessInvAfterSync(n int, disabled int) {
 	vh.Assume(sm.syncPeer == sp)
 	first := peerpkg.HarnessSent(sp)
 	vh.Assume(len(first) == 1)
+	// another peer is connected as well (at our height: it does not become the sync peer)
+	other := peerpkg.HarnessSyncCandidate(vh.Logger(), 2, hs.tipHeight)
+	sm.handleNewPeerMsg(other)
+	vh.Assert("C06/sync-peer-kept-when-another-connects", sm.syncPeer == sp && len(peerpkg.HarnessSent(other)) == 0)
 	// the answer: nothing new
 	sm.handleHeadersMsg(&headersMsg{headers: wire.NewMsgHeaders(), peer: sp})
 	vh.Assert("C06/empty-answer-sends-nothing", len(peerpkg.HarnessSent(sp)) == 0 && !peerpkg.HarnessDisconnected(sp))
@@ -154,10 +159,18 @@ func HarnessInvAfterSync(n int, disabled int) {
 	vh.Assume(!vh.HashEq(blk, hs.tipHash))
 	inv := wire.NewMsgInv()
 	_ = inv.AddInvVect(wire.NewInvVect(wire.InvTypeBlock, &blk))
+	announcer := sp
+	if vh.NondetBool("announcedByAnotherPeer") {
+		announcer = other
+	}
 	vh.Class("F2-inv-after-sync-filtered-as-duplicate-getheaders", expectedStopIsZero(sm))
-	sm.handleInvMsg(&invMsg{inv: inv, peer: sp})
-	sent := peerpkg.HarnessSent(sp)
+	sm.handleInvMsg(&invMsg{inv: inv, peer: announcer})
+	sent := peerpkg.HarnessSent(announcer)
 	vh.Assert("C06/announced-unknown-block-is-requested", len(sent) == 1)
+	if len(sent) == 1 {
+		gh, ok := sent[0].(*wire.MsgGetHeaders)
+		vh.Assert("C06/announced-unknown-block-is-requested", ok && len(gh.BlockLocatorHashes) == 1 && vh.HashEq(*gh.BlockLocatorHashes[0], hs.tipHash))
+	}
 	vh.Reach("end")
 }
 
